@@ -104,6 +104,32 @@ def gen_cases(tier, seed):
         base = {'id': cid, 'kind': kind, 'mseed': r.randrange(1 << 30),
                 'dims': list(r.choice([(2, 2), (2, 3), (3, 2)]))}
         if kind == 'frac' and r.random() < 0.08:
+            # numerator = n1*A + n2*B over the denominator A^p B^q with two disjoint
+            # brackets and weights that need two successive rescalings
+            objs = [{'t': 'anti', 'name': 'V', 'up': ['i', 'j'],
+                     'lo': ['a', 'b'], 'bk': 0},
+                    {'t': 'non', 'name': 'z', 'up': ['k', 'c']}]
+            if r.random() < 0.5:
+                objs.append({'t': 'non', 'name': 'x',
+                             'up': r.sample(['i', 'j', 'a', 'b', 'k', 'c'],
+                                            r.randint(1, 3))})
+            A = [['1', 'i'], ['1', 'j'], ['-1', 'a'], ['-1', 'b']]
+            B = [['1', 'k'], ['-1', 'c']]
+            if r.random() < 0.3:
+                A, B = B, A
+            n1, n2 = r.choice([(2, 1), (3, 1), (3, 2), (4, 2), (-2, 1), (2, -1),
+                               (1, 2), (1, 3)])
+            objs.append({'t': 'br', 'e': A, 'exp': -r.choice([1, 1, 2])})
+            objs.append({'t': 'br', 'e': B, 'exp': -r.choice([1, 1, 2])})
+            num = [[str(n1 * int(c_)), s_] for c_, s_ in A] + \
+                  [[str(n2 * int(c_)), s_] for c_, s_ in B]
+            objs.append({'t': 'br', 'e': num, 'exp': 1})
+            t = {'pref': r.choice(['1', '-1/2', '2/3', '3']), 'objs': objs}
+            tg_ = ir.term_targets({'objs': [o for o in objs if o['t'] != 'br']})
+            base.update(terms=[t], targets=r.sample(tg_, r.randint(0, len(tg_))))
+            cases.append(base)
+            continue
+        if kind == 'frac' and r.random() < 0.08:
             # a remainder that is antisymmetric under a contracted permutation
             # which leaves the denominator unchanged, and a numerator that is
             # not symmetric in the permuted indices
